@@ -555,10 +555,11 @@ def run(ck, repo: Repo, tier: str):
         n_free = 0
         targets = list(EFFECT_FREE_FUNCS)
         for m in EFFECT_FREE_MODULES:
-            mi = repo.module(m)
-            for qual, fn, mi2 in repo._walk_funcs(mi, mi.tree, mi.name):
-                if "<locals>" not in qual and not fn.name.startswith("__init__"):
-                    targets.append(qual)
+            for name_, node_, mi_ in repo.module_members(m):
+                holder = ast.Module(body=[node_], type_ignores=[])
+                for qual, fn, mi2 in repo._walk_funcs(mi_, holder, m):
+                    if "<locals>" not in qual and not fn.name.startswith("__init__"):
+                        targets.append(qual)
         for q in sorted(set(targets)):
             fn = repo.func(q)
             got = eff.summary(q)
